@@ -120,7 +120,11 @@ func seedMatrix(repo, only string, run func(*Program, string, string) *Ctx) int 
 	dirs, _ := filepath.Glob(filepath.Join(root, "seeded", "C??-*"))
 	sort.Strings(dirs)
 	if only != "" {
-		dirs = []string{filepath.Join(root, "seeded", only)}
+		if filepath.IsAbs(only) {
+			dirs = []string{only}
+		} else {
+			dirs = []string{filepath.Join(root, "seeded", only)}
+		}
 	}
 	var props []string
 	for id := range registry {
